@@ -192,6 +192,8 @@ def gal_j(j, duration=False):
             v = j.get('@value')
             if tag == 'dse:Tuple':
                 inner = '(JTuple [%s])' % '; '.join(gal_j(x) for x in v['value'])
+            elif tag == 'g:Map':
+                inner = '(JPairs [%s])' % '; '.join('(%s, %s)' % (gal_j(a), gal_j(b)) for a, b in zip(v[0::2], v[1::2]))
             elif tag == 'dse:Duration':
                 inner = '(JDseDur %s %s %s)' % (gal_j(v['months']), gal_j(v['days']), gal_j(v['nanos']))
             else:
